@@ -54,6 +54,10 @@ def run_check(pid, tier, seed, plan=None):
     # 1. design level: exhaustive TLC runs of the specification itself (in the background)
     def run_design(kw):
         kw = dict(kw)
+        if "module" in kw:  # a model other than HgSystem
+            from . import tlc
+
+            return {"k": kw["module"]}, tlc.run(kw["module"], kw["cfg"], workers=kw.get("workers", 4), timeout=3000)
         d = kw.pop("d")
         return d, model.check_design(d, timeout=3000, **kw)
 
@@ -67,7 +71,13 @@ def run_check(pid, tier, seed, plan=None):
     for tr in traces:
         j = byid[tr["id"]]
         tr["kind"], tr["root"], tr["ops"] = j.get("kind", ""), j.get("root", "?"), j["ops"]
-    val = validate.validate(traces, nproc=8)
+    mods = sorted({j.get("module", "HgTrace") for j in jobs})
+    val = {"verdicts": [], "states": 0, "distinct": 0, "wall": 0.0, "errors": [], "dropped": []}
+    for mod in mods:
+        ids = {j["id"] for j in jobs if j.get("module", "HgTrace") == mod}
+        v1 = validate.validate([t for t in traces if t["id"] in ids], nproc=8, module=mod)
+        for k in val:
+            val[k] += v1[k]
     machinery_errors += val["errors"]
     res = judge.judge(pid, [t for t in traces if t["events"]], val["verdicts"])
 
